@@ -58,6 +58,8 @@ SPEC = dict(
     design_ref='DESIGN.md §6 C15',
     rule='boundary sweep: header kind (internal / ext-in / ext-out) x extra-currency dict (0/1/many entries) x state-init shape '
          '(absent, 0..3 refs, split_depth, tick-tock) x body bits {0, 1, each exact inline limit -1/0/+1, 1023} x body refs 0..4, plus '
+         'exact-fill sweep: per header family (Message-X internal; relaxed internal / ext-in / ext-out) x dictionary x init shape the free sizes (anycast depths, extern lengths, byte lengths of the amounts) are solved '
+         'so that header + init bits hit every total 1000..1023, bodies at room-2..room+2 of both layouts x 0..4 refs; '
          'seeded random messages (addresses none/extern/std/anycast, boundary amounts); every message: library serialize -> Python spec '
          'decoder + Lean spec decoder (+ strict reader) + Lean model (cell hash); the spec encodings for all four Either choices -> library '
          'deserialize + Lean model parser. Wrappers: per class the boundary values of every field (0, 1, 2^n-1, default wallet id; '
